@@ -80,6 +80,77 @@ func checkClones(c *Ctx, rule string, baseRel, baseTyp, baseName string, deltas 
 	}
 }
 
+// c07Converters: every entry point turns tokenizer tokens into parser tokens before parsing. While one loop does that
+// (today (*tokenConverter).convert), all entry points see the same parser tokens. A second loop (a "tokens only" fast
+// variant) is a copy that has to agree with the first one element for element, like the copies of the statement loop.
+func c07Converters(c *Ctx, p *core.Prog) {
+	r := c.R
+	r.Rule("single-converter", "the loops in pkg/sql/parser that call convertSingleToken (the conversion of tokenizer tokens into parser tokens) agree in their elements: resolved callees with constant arguments and limit comparisons")
+	var convs []*ssa.Function
+	for _, fn := range p.SrcFuncs("pkg/sql/parser") {
+		if fn.Parent() != nil {
+			continue
+		}
+		lb := loopBlocks(fn)
+		hit := false
+		for _, b := range fn.Blocks {
+			if !lb[b] {
+				continue
+			}
+			for _, in := range b.Instrs {
+				if call, ok := in.(*ssa.Call); ok {
+					if f := call.Call.StaticCallee(); f != nil && f.Name() == "convertSingleToken" {
+						hit = true
+					}
+				}
+			}
+		}
+		if hit {
+			convs = append(convs, fn)
+		}
+	}
+	if len(convs) == 0 {
+		r.Undecide("single-converter", "anchor", "-", "no loop in pkg/sql/parser calls convertSingleToken: the token conversion has moved; re-audit")
+		return
+	}
+	sort.Slice(convs, func(i, j int) bool {
+		// the position-tracking converter is the reference when it is there
+		if (convs[i].Name() == "convert") != (convs[j].Name() == "convert") {
+			return convs[i].Name() == "convert"
+		}
+		return core.FnName(convs[i]) < core.FnName(convs[j])
+	})
+	base := convs[0]
+	// what the tokens depend on: the calls and limit tests; how a variant buffers its output is its own business
+	onlyCalls := func(m map[string]bool) map[string]bool {
+		out := map[string]bool{}
+		for k := range m {
+			if !strings.HasPrefix(k, "store ") {
+				out[k] = true
+			}
+		}
+		return out
+	}
+	be := onlyCalls(cloneElements(base, true))
+	if len(convs) == 1 {
+		r.OK("single-converter", core.FnName(base), p.FnPos(base), "the only conversion loop")
+		return
+	}
+	for _, fn := range convs[1:] {
+		onlyBase, onlyClone := cloneDiff(be, onlyCalls(cloneElements(fn, true)))
+		if len(onlyBase) == 0 && len(onlyClone) == 0 {
+			r.OK("single-converter", core.FnName(fn), p.FnPos(fn), "same elements as "+core.FnName(base))
+			continue
+		}
+		for _, e := range onlyBase {
+			r.Violate("single-converter", core.FnName(fn)+"|lacks|"+e, p.FnPos(fn), core.FnName(fn)+" converts tokens without `"+e+"`, which "+core.FnName(base)+" performs: entry points that use one see other parser tokens than those that use the other")
+		}
+		for _, e := range onlyClone {
+			r.Violate("single-converter", core.FnName(fn)+"|adds|"+e, p.FnPos(fn), core.FnName(fn)+" performs `"+e+"` while converting tokens, which "+core.FnName(base)+" does not: entry points that use one see other parser tokens than those that use the other")
+		}
+	}
+}
+
 var parseLoopDeltas = []cloneDelta{
 	{"pkg/sql/parser", "Parser", "ParseWithPositions",
 		[]string{"call errors.IncompleteStatementError(nil,\"\")"},
@@ -111,6 +182,7 @@ func runC07(c *Ctx) {
 	r.Rule("delegate-input", "the text an entry point hands to the tokenizer (or to another entry point) is its own input parameter, unchanged up to string/[]byte conversion: an entry point that trims, slices or rewrites the text first accepts inputs the others reject and reports positions relative to a different text")
 	checkClones(c, "clone-parse", "pkg/sql/parser", "Parser", "Parse", parseLoopDeltas)
 	checkClones(c, "clone-tokenize", "pkg/sql/tokenizer", "Tokenizer", "Tokenize", tokenizeDeltas)
+	c07Converters(c, p)
 	// delegation
 	tokLoops := map[*ssa.Function]bool{}
 	parseLoops := map[*ssa.Function]bool{}
